@@ -125,7 +125,9 @@ def renderConn (s : State) : String :=
   let act : Int := if s.tstate = .closing then -1 else s.activeCount
   let mh : Int := match s.maxSendHdr with | some m => m | none => -1
   let oc := "+".intercalate (s.onClose.map fun (r, c, e) => s!"{r}/{c}/{if e then 1 else 0}")
-  s!"{st},act={act},prev={s.prevGoAwayID},next={s.nextID},q={s.quota},wt={s.waiting},mc={s.maxConc},mh={mh},ga={bs s.goAwayClosed "1"},cd={bs s.ctxDone "1"},rs={s.reason},oc={oc},eof={bs (s.connClosed || s.peerGone) "1"}"
+  let q := if s.tstate = .closing then "-" else toString s.quota
+  let wt := if s.tstate = .closing then "-" else toString s.waiting
+  s!"{st},act={act},prev={s.prevGoAwayID},next={s.nextID},q={q},wt={wt},mc={s.maxConc},mh={mh},ga={bs s.goAwayClosed "1"},cd={bs s.ctxDone "1"},rs={s.reason},oc={oc},eof={bs (s.connClosed || s.peerGone) "1"}"
 
 def render (s : State) (w : List Wire) : String :=
   s!"rpcs={joinOr "," (s.rpcs.map (renderRpc s))} wire={joinOr "," (w.filterMap renderWire)} conn={renderConn s}"
